@@ -67,6 +67,21 @@ void finish_op(World& W, int wi)
     if (s.kind == SKind::MacroStatic || s.kind == SKind::MacroDynamic) { if (s.evaluated) x.has_logged = true; }
     else x.has_logged = true;
     if (!s.accepted && !s.threw && (s.kind == SKind::Normal || is_bt_kind(s.kind) || s.kind == SKind::Named || s.kind == SKind::Dynamic)) ++x.drops_unreported;
+    if (s.immediate && s.accepted)
+    {
+      // log_statement<immediate_flush> called flush_log() after the enqueue: when it returns, this statement and everything
+      // that flush_log() covers (see op_flush) is written and flushed
+      FlushRec f;
+      f.w = s.w;
+      f.logger = s.logger;
+      f.issue_idx = s.issue_idx;
+      f.must_be_written = x.imm_must;
+      f.must_be_written.push_back(x.pending_stmt);
+      f.returned = true;
+      W.flushes.push_back(f);
+      if (is_prop("C06") || is_prop("C10") || is_prop("C03")) check_flush_returned(W, W.flushes.back());
+    }
+    x.imm_must.clear();
   }
   else if (x.pending == OpKind::Flush)
   {
@@ -344,6 +359,20 @@ void op_log(World& W, int wi, bool in_burst, int ypoint, int logger_override = -
   if (s.kind == SKind::Dynamic && s.padlen > 0) --s.padlen; // the run-time level travels as one more byte: keep the drawn total
   s.encoded = kStmtFixed + s.padlen + (s.kind == SKind::Bomb ? 32 : 0) + (s.kind == SKind::Dynamic ? 1 : 0);
   s.issue_idx = W.op_counter;
+  // C06 / C03: one statement in ten is logged with the immediate-flush flavour of the log call (QUILL_IMMEDIATE_FLUSH)
+  if (s.kind == SKind::Normal && kind_override < 0 && (is_prop("C06") || is_prop("C03")) && c.pick(10) == 9)
+  {
+    s.immediate = true;
+    x.imm_must.clear();
+    for (size_t k = 0; k < W.stmts.size(); ++k)
+    {
+      Stmt const& e = W.stmts[k];
+      if (!e.call_done || !e.accepted || e.faulty || is_bt_kind(e.kind)) continue;
+      if (e.w == s.w || W.grace_ns > 0) x.imm_must.push_back(k);
+    }
+    W.r->label("immediate_flush_log_call");
+  }
+  bool const immediate = s.immediate;
   bool stall = false;
   if ((is_prop("C05") || is_prop("C06")) && !small && W.stalls_enabled) stall = c.pick(6) == 5;
   s.stalled = stall;
@@ -373,6 +402,7 @@ void op_log(World& W, int wi, bool in_burst, int ypoint, int logger_override = -
     if (kind == SKind::Named) d += ",named";
     if (kind == SKind::NamedBtNoInit) d += ",named-bt-noinit";
     if (kind == SKind::Dynamic) d += ",dyn";
+    if (immediate) d += ",immediate-flush";
     if (is_macro) d += std::string{","} + (dynamic ? "dyn:" : "") + kLevelCodes[level];
     else if (is_prop("C18")) d += std::string{","} + kLevelCodes[level];
     if (stall) d += ",stall";
@@ -381,7 +411,7 @@ void op_log(World& W, int wi, bool in_burst, int ypoint, int logger_override = -
   }
   WState st = sim::run_on(
     x.w,
-    [lg, wid, seq, pad, xp, kind, level, bomb_kind]()
+    [lg, wid, seq, pad, xp, kind, level, bomb_kind, immediate]()
     {
       try
       {
@@ -390,7 +420,16 @@ void op_log(World& W, int wi, bool in_burst, int ypoint, int logger_override = -
         case SKind::Normal:
         case SKind::Backtrace:
         case SKind::BtNoInit:
-          if constexpr (kDropping)
+          if (immediate)
+          {
+            if constexpr (kDropping)
+            {
+              char const* cpad = pad.c_str();
+              xp->res_accepted = lg->template log_statement<true, false>(quill::LogLevel::None, &kMd[level], wid, seq, cpad);
+            }
+            else xp->res_accepted = lg->template log_statement<true, false>(quill::LogLevel::None, &kMd[level], wid, seq, pad);
+          }
+          else if constexpr (kDropping)
           {
             char const* cpad = pad.c_str();
             xp->res_accepted = lg->template log_statement<false, false>(quill::LogLevel::None, &kMd[level], wid, seq, cpad);
